@@ -36,7 +36,7 @@ RULE = ("seeded generator of DESIGN 4.2 files (1..20 nodes, 0..22 messages stand
 
 def sizes(tier):
     # (class files, wild files)
-    return (150, 200) if tier == "quick" else (2000, 3000)
+    return (150, 200) if tier == "quick" else (1500, 3000)
 
 
 def run(res, replay=None):
